@@ -28,7 +28,7 @@ MAIN = 'python_minifier.__main__'
 
 
 class Scenario(object):
-    def __init__(self, argv, files=None, dirs=None, stdin=b'', env=None, answers=None, unreadable=(), default_answer=None, walk_errors=()):
+    def __init__(self, argv, files=None, dirs=None, stdin=b'', env=None, answers=None, unreadable=(), default_answer=None, walk_errors=(), dangling=()):
         self.argv = list(argv)
         self.files = dict(files or {})            # path -> bytes
         self.dirs = dict(dirs or {})              # path -> [(root, [dirs], [files], via_symlink)]
@@ -37,6 +37,7 @@ class Scenario(object):
         self.answers = dict(answers or {})        # source bytes -> ('ok', text) | ('raise', exception name)
         self.unreadable = set(unreadable)
         self.default_answer = default_answer
+        self.dangling = set(dangling)           # names a directory lists that are symbolic links to nothing: not a file, cannot be opened
         self.walk_errors = set(walk_errors)     # directories whose listing fails: os.walk reports an OSError to its onerror callback
 
     def answer(self, source):
@@ -316,7 +317,8 @@ def run(model, sc, entry='main', max_paths=8):
         'os.path.isdir': h_isdir, 'os.path.isfile': h_isfile, 'os.path.exists': h_exists, 'os.walk': h_walk, 'os.path.join': h_join,
         'os.environ.get': h_environ_get, 'os.getenv': h_environ_get,
         'os.scandir': h_scandir, 'os.listdir': h_listdir, '.is_dir': entry_method('is_dir'), '.is_file': entry_method('is_file'), '.is_symlink': entry_method('is_symlink'),
-        'os.path.islink': lambda I, e, args, kw, env: False,
+        'os.path.islink': lambda I, e, args, kw, env: args[0] in sc.dangling,
+        'os.path.lexists': lambda I, e, args, kw, env: args[0] in sc.files or args[0] in sc.dirs or args[0] in sc.dangling,
         'metadata.version': lambda I, e, args, kw, env: '0.0.0', 'importlib.metadata.version': lambda I, e, args, kw, env: '0.0.0',
         'open': h_open, 'io.open': h_open, '.read': h_read, '.write': h_write,
         'value:sys.stdout': Obj('Stream', name='stdout', binary=False), 'value:sys.stdout.buffer': Obj('Stream', name='stdout', binary=True),
